@@ -16,12 +16,16 @@ use core::{
     num::{IntErrorKind, ParseIntError},
     str::FromStr,
 };
+#[cfg(all(feature = "std", not(retrofire_verif)))]
+use std::fs::File;
 #[cfg(feature = "std")]
 use std::{
-    fs::File,
     io::{self, BufReader, BufWriter, Read, Write},
     path::Path,
 };
+// Verification seam: see `util::verif_fs`
+#[cfg(all(feature = "std", retrofire_verif))]
+use super::verif_fs::File;
 
 use Error::*;
 use Format::*;
